@@ -6,6 +6,9 @@ Additionally the real Go function is executed for n = 0..255 (and a few large n)
 the translated term, so the translator itself is validated against the compiled code.
 On break: evaluate all three extracted formulas and the real function over n = 0..255; the first
 n that deviates from floor(2n/3)+1 (or from each other) is the replay.
+WHICH guardian set's size the contracts' count guards read is a fact of its own (solGuardSet / ralGuardSet: "named" = the set
+stored under the VAA's own guardianSetIndex); when it resolves to another stored set, two sets of different sizes are the failing
+input (clause quorum-guard-uses-other-set_sol / _ral: a VAA naming n keys accepted below quorum, a complete one refused).
 """
 import json, os, re
 import exprtrans, vlib
@@ -97,12 +100,43 @@ def _strip_casts(expr):
         expr = expr[:m.start()] + "(" + expr[m.end():end] + ")" + expr[end + 1:]
 
 
-def sol_guard(sol, qparam, qexpr):
+GETTERS = "ethereum/contracts/Getters.sol"
+
+
+def _strip_outer(e):
+    """`e` without surrounding whitespace, redundant outer parentheses and uintN( ) casts around the whole expression"""
+    e = e.strip()
+    while True:
+        m = re.match(r"^(?:uint\d*\s*)?\(", e)
+        if m and _match_paren(e, m.end() - 1) == len(e) - 1:
+            e = e[m.end():-1].strip()
+        else:
+            return e
+
+
+def sol_getters(src):
+    """Getters.sol: `getGuardianSet(i)` must be `return _state.guardianSets[i];` and `getCurrentGuardianSetIndex()` must be
+    `return _state.guardianSetIndex;` - only then a set fetched through the getters is the set stored under that index."""
+    m = re.search(r"function\s+getGuardianSet\s*\(\s*uint32\s+(\w+)\s*\)[^{;]*\{\s*return\s+_state\s*\.\s*guardianSets\s*\[\s*(\w+)\s*\]\s*;\s*\}", src)
+    if not m or m.group(1) != m.group(2):
+        raise ValueError("%s: getGuardianSet(uint32 i) is no longer `return _state.guardianSets[i];`" % GETTERS)
+    if not re.search(r"function\s+getCurrentGuardianSetIndex\s*\(\s*\)[^{;]*\{\s*return\s+_state\s*\.\s*guardianSetIndex\s*;\s*\}", src):
+        raise ValueError("%s: getCurrentGuardianSetIndex() is no longer `return _state.guardianSetIndex;`" % GETTERS)
+
+
+def sol_guard(sol, qparam, qexpr, getters=None):
     """The guard(s) `verifyVM` really applies to the NUMBER of signatures: every `if (<cond>) { return (false, ...` and
     `require(<cond>, ...)` of verifyVM whose condition - after inlining the function's typed straight-line locals and calls of
     quorum() (by the extracted return expression of quorum()) - mentions `<vm>.signatures.length`.  Each must be ONE comparison
-    between two arithmetic expressions over the signature count k and the key count n.
-    -> ([(polarity, L, op, R)], narrowest cast width or None) with polarity 'reject' (if-return-false) / 'accept' (require);
+    between two arithmetic expressions over the signature count k and a guardian set's key count.
+
+    WHICH set's key count: every `<set>.keys.length` operand is resolved through the function's straight-line locals
+    (`Structs.GuardianSet memory|storage x = <set>`, `address[] memory ks = <set>.keys`, `uint32 i = <index>`) to a set fetched with
+    `getGuardianSet(<index>)` / `_state.guardianSets[<index>]`, and the index to the VAA's own `<vm>.guardianSetIndex` (the set the
+    VAA NAMES: variable n__) or to `getCurrentGuardianSetIndex()` / `_state.guardianSetIndex` (the CURRENT set: variable m__).
+    Anything else is not resolved and makes the extraction fail.
+    -> ([(polarity, L, op, R, text)], narrowest cast width or None, which) with polarity 'reject' (if-return-false) / 'accept'
+    (require) and which = 'named' / 'current' / 'mixed' (both occur) / 'none' (no key count in the guard);
     raises ValueError(reason) for anything else (the caller reports a broken tie, never guesses)."""
     m = re.search(r"function\s+verifyVM\s*\(\s*Structs\.VM\s+memory\s+(\w+)\s*\)[^{;]*\{", sol)
     if not m:
@@ -111,17 +145,76 @@ def sol_guard(sol, qparam, qexpr):
     if end is None:
         raise ValueError("verifyVM: unbalanced braces")
     vm, body = m.group(1), sol[m.end():end]
-    g = re.search(r"Structs\.GuardianSet\s+memory\s+(\w+)\s*=\s*getGuardianSet\(\s*%s\.guardianSetIndex\s*\)" % re.escape(vm), body)
-    if not g:
-        raise ValueError("verifyVM: `Structs.GuardianSet memory <gs> = getGuardianSet(<vm>.guardianSetIndex)` not found")
-    gs = g.group(1)
+    if getters is None:
+        import alpha
+        getters = alpha.strip_comments(vlib.read(os.path.join(vlib.REPO, GETTERS)))
+    sol_getters(getters)
     k_tok = r"\b%s\.signatures\.length\b" % re.escape(vm)
-    n_tok = r"\b%s\.keys\.length\b" % re.escape(gs)
     width = [None]
+    idx_env, set_env, keys_env = {}, {}, {}   # local name -> 'named' / 'current'
+
+    def idx_class(e):
+        e = _strip_outer(e)
+        if re.fullmatch(r"%s\s*\.\s*guardianSetIndex" % re.escape(vm), e):
+            return "named"
+        if re.fullmatch(r"getCurrentGuardianSetIndex\s*\(\s*\)|_state\s*\.\s*guardianSetIndex", e):
+            return "current"
+        return idx_env.get(e)
+
+    def set_class(e):
+        e = _strip_outer(e)
+        if e in set_env:
+            return set_env[e]
+        for pat, op, cl in ((r"getGuardianSet\s*\(", "(", ")"), (r"_state\s*\.\s*guardianSets\s*\[", "[", "]")):
+            g = re.match(pat, e)
+            if g and _match_paren(e, g.end() - 1, op, cl) == len(e) - 1:
+                return idx_class(e[g.end():-1])
+        return None
+
+    def keys_class(e):
+        e = _strip_outer(e)
+        if e in keys_env:
+            return keys_env[e]
+        g = re.fullmatch(r"(.+?)\s*\.\s*keys", e, re.S)
+        return set_class(g.group(1)) if g else None
+
+    def counts(e):
+        """every `<keys>.length` whose operand resolves -> n__ (named set) / m__ (current set)"""
+        out, at = [], 0
+        for g in re.finditer(r"\s*\.\s*length\b", e):
+            if g.start() < at:
+                continue
+            # the operand: the longest postfix expression (identifiers, `.member`, `( )`, `[ ]`) ending here
+            i = g.start()
+            while i > at:
+                c = e[i - 1]
+                if c in ")]":
+                    depth, j = 0, i - 1
+                    while j >= at:
+                        if e[j] in ")]":
+                            depth += 1
+                        elif e[j] in "([":
+                            depth -= 1
+                            if depth == 0:
+                                break
+                        j -= 1
+                    if j < at:
+                        break
+                    i = j
+                elif c.isalnum() or c in "_.":
+                    i -= 1
+                else:
+                    break
+            cls = keys_class(e[i:g.start()]) if i < g.start() else None
+            if cls is not None:
+                out.append(e[at:i] + {"named": "n__", "current": "m__"}[cls])
+                at = g.end()
+        out.append(e[at:])
+        return "".join(out)
 
     def norm(e, env):
         e = re.sub(k_tok, "k__", e)
-        e = re.sub(n_tok, "n__", e)
+        e = counts(e)
         for _ in range(8):  # locals, then quorum() calls, may nest
             e2 = re.sub(r"\b[A-Za-z_]\w*\b", lambda t: "(" + env[t.group(0)] + ")" if t.group(0) in env else t.group(0), e)
             q = re.search(r"\bquorum\s*\(", e2)
@@ -142,12 +235,21 @@ def sol_guard(sol, qparam, qexpr):
             width[0] = w if width[0] is None else min(width[0], w)
         return e
 
-    # typed straight-line locals of verifyVM (`uintN x = e;`), in textual order
+    # straight-line locals of verifyVM, in textual order: guardian sets, key arrays, indices (`uint32 i = <index>`), then the typed
+    # integer locals (`uintN x = e;`)
     env = {}
-    for d in re.finditer(r"\buint(\d*)\s+(\w+)\s*=\s*([^;]+);", body):
-        env[d.group(2)] = norm(d.group(3).strip(), env)
-        if d.group(1):
-            width[0] = int(d.group(1)) if width[0] is None else min(width[0], int(d.group(1)))
+    for d in re.finditer(r"\b(Structs\s*\.\s*GuardianSet\s+(?:memory|storage)|address\s*\[\s*\]\s+(?:memory|storage)|uint(\d*))\s+(\w+)\s*=\s*([^;]+);", body):
+        kind, name, rhs = d.group(1), d.group(3), d.group(4).strip()
+        if kind.startswith("Structs"):
+            set_env[name] = set_class(rhs)
+        elif kind.startswith("address"):
+            keys_env[name] = keys_class(rhs)
+        else:
+            if idx_class(rhs) is not None:
+                idx_env[name] = idx_class(rhs)
+            env[name] = norm(rhs, env)
+            if d.group(2):
+                width[0] = int(d.group(2)) if width[0] is None else min(width[0], int(d.group(2)))
     guards = []
     for st in re.finditer(r"\b(if|require)\s*\(", body):
         close = _match_paren(body, st.end() - 1)
@@ -176,10 +278,17 @@ def sol_guard(sol, qparam, qexpr):
         parts = _split_cmp(cn)
         if parts is None:
             raise ValueError("verifyVM: condition `%s` on the signature count is not one comparison of two arithmetic expressions" % cond.strip())
+        if re.search(r"\.\s*length\b", cn):
+            raise ValueError("verifyVM: condition `%s` on the signature count reads a length that is neither the key count of the guardian set "
+                             "fetched with %s.guardianSetIndex nor that of the current set" % (cond.strip(), vm))
         guards.append((pol, parts[0], parts[1], parts[2], cond.strip()))
     if not guards:
         raise ValueError("verifyVM compares the signature count (<vm>.signatures.length) with nothing")
-    return guards, width[0]
+    used = set()
+    for g in guards:
+        used |= set(re.findall(r"\b[nm]__", g[1] + " " + g[3]))
+    which = {("n__",): "named", ("m__",): "current", ("m__", "n__"): "mixed", (): "none"}[tuple(sorted(used))]
+    return guards, width[0], which
 
 
 _LEANOP = {"<": "<", "<=": "≤", ">": ">", ">=": "≥", "==": "=", "!=": "≠"}
@@ -187,19 +296,132 @@ _PYOP = {"<": lambda a, b: a < b, "<=": lambda a, b: a <= b, ">": lambda a, b: a
          "==": lambda a, b: a == b, "!=": lambda a, b: a != b}
 
 
-def guard_accepts(guards, n, k):
-    """does verifyVM's count guard let k signatures for n keys through (Python evaluation of the extracted comparisons)"""
+def guard_accepts(guards, n, k, m=None):
+    """does verifyVM's count guard let k signatures through when the set the VAA names has n keys and the current set m keys
+    (default: the same size) - Python evaluation of the extracted comparisons"""
+    env = {"n__": n, "m__": n if m is None else m, "k__": k}
     for pol, L, op, R, _ in guards:
-        v = _PYOP[op](exprtrans.evaluate(L, {"n__": n, "k__": k}), exprtrans.evaluate(R, {"n__": n, "k__": k}))
+        v = _PYOP[op](exprtrans.evaluate(L, env), exprtrans.evaluate(R, env))
         if (pol == "reject" and v) or (pol == "accept" and not v):
             return False
     return True
 
 
+def ral_guard_set(ral):
+    """governance.ral parseAndVerifyVAA: WHICH guardian set's size is `guardianSize` (the operand of quorumSize).
+    `let guardianSize = u256From1Byte!(byteVecSlice!(<blob>, 0, 1))`; <blob> is resolved through the function's immutable `let`s to
+    `getGuardiansInfo(<index>)` or `guardianSets[i]`, <index> to the VAA's own bytes 1..5 (`u256From4Byte!(byteVecSlice!(data, 1, 5))`:
+    the set the VAA NAMES) or to `guardianSetIndexes[i]`; getGuardiansInfo itself must hand out guardianSets[i] for
+    guardianSetIndexes[i], i = 0, 1.  -> 'named' / 'current' (slot 1) / 'previous' (slot 0); ValueError(reason) if unresolved."""
+    m = re.search(r"\bfn\s+parseAndVerifyVAA\s*\(\s*(\w+)\s*:\s*ByteVec\b[^{]*\{", ral)
+    end = _match_paren(ral, m.end() - 1, "{", "}") if m else None
+    if end is None:
+        raise ValueError("fn parseAndVerifyVAA(<data>: ByteVec, ...) not found")
+    data, body = m.group(1), ral[m.end():end]
+    lets = {}
+    for d in re.finditer(r"\blet\s+(mut\s+)?(\w+)\s*=\s*([^\n]+)", body):
+        lets[d.group(2)] = None if d.group(1) or d.group(2) in lets else d.group(3).strip()   # mutable / re-declared: not resolved
+    g = re.search(r"\bfn\s+getGuardiansInfo\s*\(\s*(\w+)\s*:\s*U256\s*\)[^{]*\{", ral)
+    gend = _match_paren(ral, g.end() - 1, "{", "}") if g else None
+    if gend is None:
+        raise ValueError("fn getGuardiansInfo(<index>: U256) not found")
+    gp, gbody = re.escape(g.group(1)), ral[g.end():gend]
+    pairs = set()
+    for b in re.finditer(r"\bif\s*\(\s*(?:%s\s*==\s*guardianSetIndexes\[(\d)\]|guardianSetIndexes\[(\d)\]\s*==\s*%s)\s*\)\s*\{" % (gp, gp), gbody):
+        bend = _match_paren(gbody, b.end() - 1, "{", "}")
+        r = re.search(r"\breturn\s+guardianSets\[(\d)\]", gbody[b.end():bend or len(gbody)])
+        pairs.add((b.group(1) or b.group(2), r.group(1) if r else None))
+    if pairs != {("0", "0"), ("1", "1")} or len(re.findall(r"\breturn\b", gbody)) != 2:
+        raise ValueError("getGuardiansInfo no longer returns guardianSets[i] exactly for an index equal to guardianSetIndexes[i], i = 0, 1")
+    slot = {"1": "current", "0": "previous"}
+
+    def strip(e):
+        e = e.strip()
+        while e.startswith("(") and _match_paren(e, 0) == len(e) - 1:
+            e = e[1:-1].strip()
+        return e
+
+    def idx_class(e, depth=0):
+        e = strip(e)
+        if re.fullmatch(r"u256From4Byte!\(\s*byteVecSlice!\(\s*%s\s*,\s*1\s*,\s*5\s*\)\s*\)" % re.escape(data), e):
+            return "named"
+        i = re.fullmatch(r"guardianSetIndexes\[(\d)\]", e)
+        if i:
+            return slot.get(i.group(1))
+        if depth < 8 and lets.get(e):
+            return idx_class(lets[e], depth + 1)
+        return None
+
+    def blob_class(e, depth=0):
+        e = strip(e)
+        i = re.fullmatch(r"guardianSets\[(\d)\]", e)
+        if i:
+            return slot.get(i.group(1))
+        c = re.match(r"getGuardiansInfo\s*\(", e)
+        if c and _match_paren(e, c.end() - 1) == len(e) - 1:
+            return idx_class(e[c.end():-1])
+        if depth < 8 and lets.get(e):
+            return blob_class(lets[e], depth + 1)
+        return None
+
+    s = re.search(r"\blet\s+guardianSize\s*=\s*u256From1Byte!\(\s*byteVecSlice!\(", body)
+    if not s:
+        raise ValueError("guardianSize is no longer `u256From1Byte!(byteVecSlice!(<guardian blob>, 0, 1))`")
+    close = _match_paren(body, s.end() - 1)
+    a = re.fullmatch(r"(.+),\s*0\s*,\s*1\s*", body[s.end():close] if close else "", re.S)
+    if not a or not re.match(r"\s*\)", body[close + 1:]):
+        raise ValueError("guardianSize is no longer the first byte (the 1-byte guardian count) of a guardian blob")
+    cls = blob_class(a.group(1))
+    if cls is None:
+        raise ValueError("guardianSize is read from `%s`, which is neither getGuardiansInfo(<the VAA's guardianSetIndex>) nor one of the "
+                         "stored sets" % a.group(1).strip())
+    return cls
+
+
+# set sizes for the two-set search: today's 19 first, then a rotation to a small / a larger set, then the rest of the ladder
+_SIZES = (19, 4, 25, 1, 2, 3, 5, 6, 7, 13, 18, 20, 64, 128, 255)
+
+
+def other_set_search(accepts):
+    """accepts(n, m, k): does the contract's count guard let k signatures through for a VAA naming a set of n keys while the
+    OTHER set (the one whose size the guard reads) has m keys.  -> (first (n, m, k) accepted with k below floor(2n/3)+1,
+    first (n, m, k) refused although floor(2n/3)+1 <= k <= n), either may be None."""
+    below = over = None
+    for n in _SIZES:
+        want = 2 * n // 3 + 1
+        for m in _SIZES:
+            if m == n:
+                continue
+            for k in range(0, n + 1):
+                a = accepts(n, m, k)
+                if a and k < want and below is None:
+                    below = (n, m, k)
+                if not a and k >= want and over is None:
+                    over = (n, m, k)
+        if below and over:
+            break
+    return below, over
+
+
+def _go_source():
+    """the non-test file of package processor that defines CalculateQuorum (quorum.go unless the function was moved within the package)"""
+    d = os.path.dirname(GO)
+    try:
+        names = sorted(os.listdir(os.path.join(vlib.REPO, d)))
+    except OSError:
+        return None
+    for f in [os.path.basename(GO)] + names:
+        p = os.path.join(vlib.REPO, d, f)
+        if f.endswith(".go") and not f.endswith("_test.go") and os.path.isfile(p) and re.search(r"\bfunc\s+CalculateQuorum\s*\(", vlib.read(p)):
+            return os.path.join(d, f)
+    return None
+
+
 def extract(ctx):
     facts = {}
+    go_rel = _go_source()
     # constants folded (tools/gofold); a straight-line body `x := e ... return e'` is inlined into one expression
-    go = re.sub(r"//[^\n]*", "", vlib.gofold(GO))
+    go = re.sub(r"//[^\n]*", "", vlib.gofold(go_rel)) if go_rel else ""
     m = re.search(r"func\s+CalculateQuorum\s*\(\s*(\w+)\s+int\s*\)\s*int\s*\{(.*?)\n\}", go, re.S)
     expr = None
     if m:
@@ -219,9 +441,9 @@ def extract(ctx):
         if not ok:
             expr = None
     if not m or expr is None:
-        ctx.gen_fail("C07", "CalculateQuorum is no longer straight-line code ending in one return expression over one int parameter in " + GO)
+        ctx.gen_fail("C07", "CalculateQuorum is no longer straight-line code ending in one return expression over one int parameter in " + (go_rel or os.path.dirname(GO)))
     else:
-        facts["go"] = (m.group(1), expr.strip(), GO)
+        facts["go"] = (m.group(1), expr.strip(), go_rel)
     sol = vlib.read_contract(SOL)
     # straight-line body: typed local declarations `uintN x = [uintN(]expr[)];` are inlined into the return expression, and the
     # narrowest width any operand is declared with / cast to is recorded (^0.8 checked arithmetic happens at that width)
@@ -272,21 +494,28 @@ def extract(ctx):
         ctx.gen_fail("C07", "`let quorumSize = <expr>` followed by `assert!(quorumSize <= signatureSize` not found in " + RAL)
     else:
         facts["ral"] = ("guardianSize", m.group(1).strip(), RAL)
-    # the guardianSize / signatureSize operands must be the one-byte counts the wire format carries
+    # the guardianSize / signatureSize operands must be the one-byte counts the wire format carries - and guardianSize that of
+    # WHICH set: the one fetched with the VAA's own guardianSetIndex ('named'), or a stored slot ('current' / 'previous')
     if "ral" in facts:
-        if not re.search(r"let\s+guardianSize\s*=\s*u256From1Byte!\(byteVecSlice!\(guardians,\s*0,\s*1\)\)", ral):
-            ctx.gen_fail("C07", "guardianSize is no longer the 1-byte guardian count in " + RAL)
+        try:
+            facts["_ralGuardSet"] = ral_guard_set(ral)
+        except ValueError as e:
+            ctx.gen_fail("C07", "%s: %s" % (RAL, e))
         if not re.search(r"let\s+signatureSize\s*=\s*u256From1Byte!\(byteVecSlice!\(data,\s*5,\s*6\)\)", ral):
             ctx.gen_fail("C07", "signatureSize is no longer byte 5 of the VAA in " + RAL)
     # Solidity: the guard verifyVM applies to the signature count - whatever it is: a call of quorum() (inlined), a local holding
     # it, or a comparison written out in place
     try:
-        guards, gwidth = sol_guard(sol, facts["sol"][0] if "sol" in facts else None, facts["sol"][1] if "sol" in facts else None)
+        guards, gwidth, which = sol_guard(sol, facts["sol"][0] if "sol" in facts else None, facts["sol"][1] if "sol" in facts else None)
         terms = []
+        # solAcceptsCount n k: the comparison with every key-count operand read as n (whichever set it is the count of - that is
+        # the separate fact solGuardSet)
+        names = {"n__": "n", "m__": "n", "k__": "k"}
         for pol, L, op, R, txt in guards:
-            t = "decide (%s %s %s)" % (exprtrans.translate(L, {"n__": "n", "k__": "k"}), _LEANOP[op], exprtrans.translate(R, {"n__": "n", "k__": "k"}))
+            t = "decide (%s %s %s)" % (exprtrans.translate(L, names), _LEANOP[op], exprtrans.translate(R, names))
             terms.append("!(%s)" % t if pol == "reject" else "(%s)" % t)
         facts["_solGuard"] = (guards, " && ".join(terms))
+        facts["_solGuardSet"] = which
         if gwidth is not None:
             facts["_solWidth"] = min(facts.get("_solWidth", 256), gwidth)
     except (ValueError, exprtrans.TranslateError) as e:
@@ -312,6 +541,8 @@ def gen(ctx):
     sol_loop = facts.pop("_solLoop", False)
     ral_loop = facts.pop("_ralLoop", False)
     sol_guard_f = facts.pop("_solGuard", None)
+    sol_guard_set = facts.pop("_solGuardSet", None)
+    ral_guard_set_f = facts.pop("_ralGuardSet", None)
     for k, lname in (("go", "goQuorum"), ("sol", "solQuorum"), ("ral", "ralQuorum")):
         if k not in facts:
             continue
@@ -324,7 +555,7 @@ def gen(ctx):
         lean_terms[k] = t
         defs.append("/-- from %s: `%s` -/\ndef %s (n : Nat) : Nat := %s\n" % (src, expr, lname, t))
     nq = len(defs)
-    if nq == 3 and sol_guard_f is None:
+    if nq == 3 and (sol_guard_f is None or ral_guard_set_f is None):
         nq = 0  # already reported by gen_fail: the Gen file is not written, the proofs are not re-checked against stale facts
     if nq == 3:
         b = lambda x: "true" if x else "false"
@@ -332,6 +563,13 @@ def gen(ctx):
                     "%s (calls of quorum() and straight-line locals inlined) -/\n"
                     "def solAcceptsCount (n k : Nat) : Bool := %s\n"
                     % ("; ".join("`%s`: %s" % (g[4], "rejected" if g[0] == "reject" else "required") for g in sol_guard_f[0]), sol_guard_f[1]))
+        defs.append("/-- Messages.sol verifyVM: WHICH guardian set's key count that guard reads (every `<set>.keys.length` operand resolved "
+                    "through straight-line locals and the Getters.sol getters): \"named\" = the set stored under the VAA's own guardianSetIndex, "
+                    "\"current\" = the set under _state.guardianSetIndex, \"mixed\" = both occur, \"none\" = no key count at all -/\n"
+                    "def solGuardSet : String := \"%s\"\n" % sol_guard_set)
+        defs.append("/-- governance.ral parseAndVerifyVAA: WHICH guardian set's size `guardianSize` (the operand of quorumSize) is: \"named\" = "
+                    "the first byte of getGuardiansInfo(<bytes 1..5 of the VAA>), \"current\" / \"previous\" = of the stored slot 1 / 0 -/\n"
+                    "def ralGuardSet : String := \"%s\"\n" % ral_guard_set_f)
         defs.append("/-- Messages.sol verifySignatures/verifyVM: non-empty set, `i == 0 || index > lastIndex`, positional ecrecover comparison (textual) -/\n"
                     "def solLoopShape : Bool := %s\n" % b(sol_loop))
         defs.append("/-- bit width of the Solidity quorum() parameter / call-site cast: under ^0.8 checked arithmetic an intermediate value "
@@ -344,6 +582,8 @@ def gen(ctx):
     facts["_solWidthKept"] = sol_width
     facts["_solUncheckedKept"] = sol_unchecked
     facts["_solGuardKept"] = sol_guard_f[0] if sol_guard_f else None
+    facts["_solGuardSetKept"] = sol_guard_set
+    facts["_ralGuardSetKept"] = ral_guard_set_f
     return facts, nq == 3
 
 
@@ -352,6 +592,8 @@ def run(ctx):
     sol_width = facts.pop("_solWidthKept", 256)
     sol_unchecked = facts.pop("_solUncheckedKept", False)
     sol_guards = facts.pop("_solGuardKept", None)
+    sol_guard_set = facts.pop("_solGuardSetKept", None)
+    ral_guard_set_f = facts.pop("_ralGuardSetKept", None)
     if ok:
         ctx.prove(families=("processor", "evm", "explorer"))
     else:
@@ -424,6 +666,43 @@ def run(ctx):
                                 " / ".join(g[4] for g in sol_guards), "accepts" if guard_accepts(sol_guards, n, guard_k) else "refuses", guard_k, n)),
                     "replay": {"n": n, "k": guard_k, "values": got, "expected": want,
                                "sources": {k: v[2] for k, v in facts.items() if not k.startswith("_")}, "solQuorumWidth": sol_width}})
+    # --- "for the guardian set of size n": the n the contracts' guards read must be the size of the set the VAA NAMES.  When the
+    # extractor resolved it to another set (the current one), two sets of different sizes give the failing input: a VAA naming a
+    # (still valid) set of n keys, k signatures, while the set whose size the guard reads has m keys
+    def other_set(contract, src, guard_txt, which, accepts):
+        nonlocal evals
+        try:
+            below, over = other_set_search(accepts)
+        except Exception as e:  # noqa
+            ctx.broken.append(("tie", "other-set-search", "%s: %r" % (contract, e)))
+            return
+        evals += 1
+        if not below and not over:
+            return
+        parts = []
+        if below:
+            n, m, k = below
+            parts.append("named set n=%d keys (floor(2n/3)+1=%d), %s set m=%d keys: k=%d signatures pass the guard - accepted below quorum" % (
+                n, 2 * n // 3 + 1, which, m, k))
+        if over:
+            n, m, k = over
+            parts.append("named set n=%d keys (floor(2n/3)+1=%d), %s set m=%d keys: a complete VAA with k=%d signatures is refused" % (
+                n, 2 * n // 3 + 1, which, m, k))
+        ctx.spec_violations.append({
+            "key": "quorum-guard-uses-other-set:" + contract,
+            "what": "%s: the guard on the signature count (%s) reads the key count of the %s guardian set, not of the set the VAA names: %s" % (
+                src, guard_txt, which.upper(), "; ".join(parts)),
+            "replay": {"contract": src, "guard": guard_txt, "guard_reads_set": which,
+                       "accepted_below_quorum": None if not below else dict(zip(("n_named", "n_" + which, "k"), below), expected_threshold=2 * below[0] // 3 + 1),
+                       "rejected_although_complete": None if not over else dict(zip(("n_named", "n_" + which, "k"), over), expected_threshold=2 * over[0] // 3 + 1)}})
+
+    if sol_guards is not None and sol_guard_set in ("current", "mixed"):
+        other_set("sol", SOL + " verifyVM", " / ".join(g[4] for g in sol_guards), "current",
+                  lambda n, m, k: guard_accepts(sol_guards, n, k, m))
+    if ral_guard_set_f in ("current", "previous") and "ral" in facts:
+        rvar, rexpr, _ = facts["ral"]
+        other_set("ral", RAL + " parseAndVerifyVAA", "quorumSize = %s; quorumSize <= signatureSize" % rexpr, ral_guard_set_f,
+                  lambda n, m, k: exprtrans.evaluate(rexpr, {rvar: m}) <= k)
     ctx.cov["evaluations"] = evals
     ctx.cov["distinct_nontrivial"] = len(table)
     ctx.cov["exhaustive"] = True
@@ -434,6 +713,11 @@ def run(ctx):
     ctx.cov["trusted_base"] += [
         "tools/exprtrans.py + the regexes in checks/c07.py that locate the three formulas (validated against the compiled Go function on n=0..255 and 2^20..2^20+300)",
         "Solidity and Ralph integer semantics: uint/U256 truncating division on naturals (overflow impossible for n <= 255)",
+        "checks/c07.py sol_guard / ral_guard_set: WHICH set's key count the count guard reads is resolved textually - `<set>.keys.length` through "
+        "verifyVM's straight-line locals to getGuardianSet(i) / _state.guardianSets[i] with i = <vm>.guardianSetIndex (named) or "
+        "getCurrentGuardianSetIndex() / _state.guardianSetIndex (current), Getters.sol's two getters checked to be the plain field reads; Ralph's "
+        "guardianSize through `let`s to getGuardiansInfo(<bytes 1..5 of the VAA>) (named) or guardianSets[i] / guardianSetIndexes[i]; anything "
+        "unresolved is a reported extraction failure; Whv.Gen.C07.solGuardSet / ralGuardSet, theorems sol_guard_reads_named_set / ral_guard_reads_named_set",
         "checks/c07.py sol_guard: locates in verifyVM every if-return-false / require whose condition mentions <vm>.signatures.length, inlines typed "
         "straight-line locals and quorum() calls, accepts exactly one comparison of two + * / expressions over the two counts (anything else is a "
         "reported extraction failure); Whv.Gen.C07.solAcceptsCount is that guard, sol_verifyvm_guard proves it equal to floor(2n/3)+1 <= k for all n, k",
